@@ -385,6 +385,23 @@ def not_supported_from_errors(facts, rep, rule, D):
                         tfn = sb.blocks[x[3][1]].term.func.fn if sb is not None and sb.blocks[x[3][1]].term.func.kind == "fn" else None
                         if hb is not None or (tfn is not None and tfn.get("crate") == facts.crate):
                             failed.append(short(x[1]))
+                # ... also in the combinator spelling: the kind is built in a closure handed to `map_err` / `or_else` of the failed call
+                if b.kind == "Closure" and b.parent and facts.body(b.parent) is not None:
+                    pb_ = facts.body(b.parent)
+                    ptr_ = get_tracer(facts, pb_)
+                    for pblk in pb_.calls():
+                        if short(pblk.term.callee() or "") in ("Result::map_err", "Result::or_else") and len(pblk.term.args) == 2:
+                            ca_ = strip(ptr_.operand(pblk.term.args[1]))
+                            if ca_[0] == "closure" and ca_[1] == b.id:
+                                x = ptr_.operand(pblk.term.args[0])
+                                while x[0] in ("await", "okval", "errval") or (x[0] == "call" and isinstance(x[1], str) and short(x[1]) in ("Try::branch", "IntoFuture::into_future")):
+                                    x = x[1] if x[0] != "call" else x[2][0]
+                                if x[0] == "call" and isinstance(x[1], str):
+                                    hb = inter.body_of_call(x)
+                                    sb = facts.body(x[3][0]) if len(x) > 3 and x[3] else None
+                                    tfn = sb.blocks[x[3][1]].term.func.fn if sb is not None and sb.blocks[x[3][1]].term.func.kind == "fn" else None
+                                    if hb is not None or (tfn is not None and tfn.get("crate") == facts.crate):
+                                        failed.append(short(x[1]))
                 n += 1
                 rep.ob(rule, D.owner_id(b), "NotSupported is not the answer to a failed operation of this crate", not failed, "" if not failed else
                        "%s answers NotSupported because %s failed: the caller's generic route then runs on whatever the failed attempt left "
@@ -471,6 +488,10 @@ def run(facts, rep, tier, ctx):
     rep.floor("tolerated-kind construction sites", k, 6)
     k2 = tolerated_kind_sites(facts, rep, "R20.6", D)
     not_found_from_errors(facts, rep, "R20.9", D)
+    # R20.p the error path itself cannot panic: the functions of error.rs (with_path / with_context / the conversions) run exactly when
+    # something underneath failed — a panic there replaces the Err the caller was owed (C13's sites, restricted to that file)
+    from . import c13 as _c13e
+    _c13e.sites_for(facts, rep, ctx["V"], "R20.p", lambda r: r.file == "src/error.rs" or r.file.endswith("/src/error.rs"))
     k10 = not_supported_from_errors(facts, rep, "R20.10", D)
     rep.floor("NotSupported construction sites judged (R20.10)", k10, 10)
     rep.floor("DirectoryExists construction sites (whole crate)", k2, 6)
